@@ -80,6 +80,15 @@ def run_case(ctx: Ctx, topo: dict, rng: random.Random, mode: str, recs: list, me
     coords = {int(k): v for k, v in coords.items()} if isinstance(coords, dict) else dict(enumerate(coords))
     npts = len(coords)
     base = [point(coords[v]) for v in range(npts)]
+    if mode.startswith("renumbered"):
+        # the same blocks with their corners numbered otherwise (one rotation of the hexahedron applied to every block): which
+        # points are joined by a block edge does not depend on how a block lists its corners
+        if topo["dim"] != 3:
+            return
+        from .. import hexref
+        rot = hexref.SYMS[hexref.ROT_IDX[int(mode.split(":")[1])]]
+        topo = dict(topo, cells=[[c[rot[k]] for k in range(8)] for c in topo["cells"]])
+        mode = "all-free"
     merged = mode == "merged"
     if merged:
         if topo["dim"] != 2 or len(topo["cells"]) < 2:
@@ -241,6 +250,10 @@ def run(ctx: Ctx) -> None:
         for mode in ("all-free", "fixed", "single-free", "regular-start", "far", "merged"):
             for _ in range(reps if mode in ("fixed", "single-free") else 1):
                 run_case(ctx, topo, rng, mode, recs, meta)
+        if topo["dim"] == 3:
+            which = range(24) if (topo["topo"]["kind"] == "hexring" or ctx.tier == "thorough") else rng.sample(range(24), 3)
+            for r in which:
+                run_case(ctx, topo, rng, f"renumbered:{r}", recs, meta)
     if not recs:
         raise MachineryError("no smoothing case could be run")
     path = os.path.join(ctx.tmp, "smooth.json")
